@@ -32,6 +32,8 @@ Clause → theorem                                   (model: Model/DepProtocol.l
     complete rounds of the same data, in different
     orders / after different pre-histories, give
     the same parameters for every function
+  … and also when the same dependence structure is  canon_relabel, fit_declaration_order_independent
+    declared in another admissible order (renaming σ)
   intermediate fit may see an unfitted conditioner  intermediate_fit_may_see_unfitted_conditioner (witness)
   the `issubset` test of `callback` never fails     callback_true (one step, given FcSub), fcSub_after_any_history
                                                     (FcSub holds in every reachable state),
@@ -1705,6 +1707,45 @@ theorem first_fit_order_independent (N : Nat) (conds : Nat → List Nat) (wf : W
   have := fit_order_independent N conds wf fitRes init0 [] (round o₁ r) [] (round o₂ r) r
     (by simp) (hr o₁ h₁).1 (hr o₁ h₁).2 (by simp) (hr o₂ h₂).1 (hr o₂ h₂).2
   simpa using this
+/-- **the dependency-order fit does not depend on the declaration order.**  The same dependence
+structure declared in another (admissible) order: `σ` renames the objects, `conds'`/`fitRes'` are
+the renamed conditioner lists / fit function.  Then object `σ h` of the second declaration gets
+the `canon` parameters of object `h` of the first. -/
+theorem canon_relabel (N : Nat) (conds conds' : Nat → List Nat) (wf : WF conds) (wf' : WF conds')
+    (fitRes fitRes' : Nat → Nat → Nat → List R → R) (init0 init0' : Nat → R) (r : Nat)
+    (σ : Nat → Nat) (hσ : ∀ h, h < N → σ h < N)
+    (hconds : ∀ h, h < N → conds' (σ h) = (conds h).map σ)
+    (hfit : ∀ h, h < N → fitRes' (σ h) = fitRes h) :
+    ∀ h, h < N → canon conds' fitRes' init0' r N (σ h) = canon conds fitRes init0 r N h := by
+  apply canon_unique conds wf fitRes init0 r N (fun h => canon conds' fitRes' init0' r N (σ h))
+  intro h hh
+  show canon conds' fitRes' init0' r N (σ h) = _
+  rw [canon_spec conds' wf' fitRes' init0' r N (σ h) (hσ h hh), hconds h hh, hfit h hh,
+    List.map_map]
+  rfl
+
+/-- **declaration order AND fit order independence**: two declarations of the same dependence
+structure (renaming `σ`), each fitted by some history that ends with a complete round of the same
+data — corresponding objects end up with the same parameters. -/
+theorem fit_declaration_order_independent (N : Nat) (conds conds' : Nat → List Nat)
+    (wf : WF conds) (wf' : WF conds') (fitRes fitRes' : Nat → Nat → Nat → List R → R)
+    (init0 init0' : Nat → R) (r : Nat) (σ : Nat → Nat) (hσ : ∀ h, h < N → σ h < N)
+    (hconds : ∀ h, h < N → conds' (σ h) = (conds h).map σ)
+    (hfit : ∀ h, h < N → fitRes' (σ h) = fitRes h)
+    (pre rnd pre' rnd' : List (Nat × Nat))
+    (hpre : ∀ p ∈ pre, p.1 < N) (hrnd : ∀ p ∈ rnd, p.1 < N ∧ p.2 = r)
+    (hall : ∀ f, f < N → (f, r) ∈ rnd)
+    (hpre' : ∀ p ∈ pre', p.1 < N) (hrnd' : ∀ p ∈ rnd', p.1 < N ∧ p.2 = r)
+    (hall' : ∀ f, f < N → (f, r) ∈ rnd') :
+    ∀ h, h < N →
+      results conds' fitRes' init0' (runHistory N conds' (pre' ++ rnd')).evlog (σ h) =
+        results conds fitRes init0 (runHistory N conds (pre ++ rnd)).evlog h := by
+  intro h hh
+  rw [results_after_complete_round N conds' wf' fitRes' init0' pre' rnd' r hpre' hrnd' hall'
+      (σ h) (hσ h hh),
+    results_after_complete_round N conds wf fitRes init0 pre rnd r hpre hrnd hall h hh]
+  exact canon_relabel N conds conds' wf wf' fitRes fitRes' init0 init0' r σ hσ hconds hfit h hh
+
 end Results
 
 /-! ### witnesses / non-vacuity -/
@@ -1800,6 +1841,13 @@ example :
     (List.range 4).map (results diamond toyFit (fun _ => 0)
       (runHistory 4 diamond (round [0, 2, 1, 3] 0 ++ [(2, 5)])).evlog) ≠ [51, 205, 206, 1287] := by
   decide
+-- non-vacuity of `canon_relabel`: the diamond declared as 0 → {1, 2} → 3 and, with the two middle
+-- objects swapped (σ = swap 1 2), the renamed toy fit gives the swapped parameters
+def swap12 : Nat → Nat | 1 => 2 | 2 => 1 | n => n
+def diamond' : Nat → List Nat | 1 => [0] | 2 => [0] | 3 => [2, 1] | _ => []
+example : (∀ h, h < 4 → swap12 h < 4) ∧ (∀ h, h < 4 → diamond' (swap12 h) = (diamond h).map swap12) ∧
+    (List.range 4).map (fun h => canon diamond' (fun f => toyFit (swap12 f)) (fun _ => 0) 5 4 (swap12 h))
+      = (List.range 4).map (canon diamond toyFit (fun _ => 0) 5 4) := by decide
 example : latestCall [(1, 0), (0, 0), (1, 1)] 1 = some 1 ∧ latestCall [(1, 0), (0, 0), (1, 1)] 0 = some 0 ∧
     latestCall [(1, 0), (0, 0), (1, 1)] 2 = none := by decide
 
